@@ -243,7 +243,7 @@ def run(ctx):
     n = 150 if ctx.tier == 'quick' else 5000
     worlds = [render('c02-%d' % i, make_spec(g, (('nosafn',) if g.r.random() < 0.5 else ()) + (('punct',) if g.r.random() < 0.3 else ()))) for i in range(n)]
     from gen import Call
-    for i, (a, b) in enumerate([(b'a\n---\nb', b'a\n/-/-/-/\nb'), (b'/-/-/-/', b'---'), (b'x\n/-/-/-/\n', b'x\n---\n'), (b'---\n---', b'---\n/-/-/-/'),
+    for i, (a, b) in enumerate([(b'', b'no longer empty'), (b'', b'\n'), (b'a\n---\nb', b'a\n/-/-/-/\nb'), (b'/-/-/-/', b'---'), (b'x\n/-/-/-/\n', b'x\n---\n'), (b'---\n---', b'---\n/-/-/-/'),
                                 # standalone values differing only in their line endings
                                 (b'a\nb', b'a\r\nb'), (b'a\r\nb', b'a\nb'), (b'id,name\r\n1,x\r\n', b'id,name\n1,x\n'), (b'x\n\n', b'x\n\r\n')]):
         spec = dict(cfgs=[cfg_line(1, 'snaps')], execs=[(b'TestSwap', [(1, Call('sasnap', a))])], flags=set(),
